@@ -42,11 +42,19 @@ class KeySource:
         return v
 
 
-def one_call(api, op, fin, payload, keykind, trace_on, rng, urandom_draws):
+def one_call(api, op, fin, payload, keykind, trace_on, rng, urandom_draws, write_cap=None):
+    try:
+        return _one_call(api, op, fin, payload, keykind, trace_on, rng, urandom_draws, write_cap)
+    except Exception as e:
+        return {"api": api, "fin": fin, "op": op, "n": -1, "raised": "%s: %s" % (type(e).__name__, str(e)[:80]),
+                "ptype": type(payload).__name__, "keyKind": keykind, "trace": bool(trace_on), "payload_repr": repr(payload)[:80]}
+
+
+def _one_call(api, op, fin, payload, keykind, trace_on, rng, urandom_draws, write_cap=None):
     """payload: bytes / bytearray / str.  Returns the event."""
     import websocket
     from websocket._abnf import ABNF
-    sc = {"stream": b"", "cuts": [], "timeouts": []}
+    sc = {"stream": b"", "cuts": [], "timeouts": [], "write_cap": write_cap}
     log = []
     fake = FakeSock(sc, log.append)
     ks = None
@@ -205,10 +213,19 @@ def main(ctx):
     os.urandom = spy
     ev = []
     try:
-        for (api, op, fin, payload, kk, tr) in calls:
-            ev.append(one_call(api, op, fin, payload, kk, tr, rng, udraws))
+        for ci, (api, op, fin, payload, kk, tr) in enumerate(calls):
+            # every third call goes through a transport that takes the frame in several short writes
+            cap = None if ci % 3 else rng.choice([1, 2, 3, 7, 64, 1000, 4096])
+            if cap is not None:
+                size = len(payload) if not isinstance(payload, tuple) else 130
+                cap = max(cap, size // 40 + 1)
+            ev.append(one_call(api, op, fin, payload, kk, tr, rng, udraws, write_cap=cap))
     finally:
         os.urandom = real
+    for e in [e for e in ev if "raised" in e]:
+        ctx.deviation(None, "%s(op=%s, fin=%s, payload %s %s) raised %s" % (e["api"], e["op"], e["fin"], e["ptype"], e["payload_repr"], e["raised"]),
+                      {"event": e})
+    ev = [e for e in ev if "raised" not in e]
     # successive default-key frames must use distinct draws (a constant or reused key fails)
     dk = [tuple(e["head"][-4:]) for e in ev if e["keyKind"] == "default"]
     ctx.notes["distinct_default_keys"] = "%d of %d" % (len(set(dk)), len(dk))
